@@ -149,6 +149,8 @@ def parse_template(text, variant=None):
                 elif s.startswith("//@spec") and not s.startswith("//@specfrom"):
                     cur = d["spec"]
                     tags = re.findall(r"@C\d+", s)
+                    if re.sub(r"@C\d+", "", s[len("//@spec"):]).strip():
+                        raise SystemExit(f"template line {i+1}: text after //@spec tags is ignored; put clauses on //@| lines: {s}")
                     d["tags"] = tags
                     if tags:
                         cur.append("// @default " + " ".join(tags))
